@@ -10,7 +10,7 @@ Driver for C02 (only well-formed bundles are accepted / produced). Input lines:
        judged by `WellFormed` and accept/reject is compared with the model.
   chk  extra=… now0=… now1=… b=<bundle> valid=<1|0|panic>
        implementation: `Bundle.CheckValid` on the described structure (no wire involved).
-  prod kind=<builder|frommap|fragment|reassembled> desc=<text> res=<err|panic>
+  prod kind=<builder|frommap|fragment|refragment|reassembled|statusreport|pong|metadata> desc=<text> res=<err|panic>
   prod kind=… extra=… now0=… now1=… desc=… res=ok valid=<1|0> dump=<bundle> ser=<hex|err> parse=<ok|err|partial|-> pdump=<same|bundle|->
        implementation: a bundle handed out by a producer; `valid` = its own `CheckValid`, `ser` =
        `MarshalCbor`, `parse`/`pdump` = `ParseBundle` of those bytes.
@@ -97,7 +97,8 @@ def handleProd (toks : List String) : String :=
         else
         match serialize d, parseHex ser with
         | .ok ms, some gs =>
-          if ms != gs then s!"diff prod-ser model={clip (toHex ms) 300} impl={clip ser 300}"
+          if ms != gs && !(hasMultiMap d && ms.length == gs.length) then
+            s!"diff prod-ser model={clip (toHex ms) 300} impl={clip ser 300}"
           else
             match parse cfg now0 gs, parse cfg (now1 + 1) gs with
             | .error _, .error _ => "diff prod-parse model=reject impl=accept"
